@@ -8,6 +8,7 @@ import copy
 import collections
 
 from mc import adapt as A
+from mc import alias
 from mc import keys as K
 from refpgp import keys as rkeys, sig as rsig, tpk, wire, armor as rarmor
 
@@ -115,7 +116,10 @@ class World(object):
         self.held = []           # public keys derived earlier and kept alive: (step, object)
         self.key = K.pgpy_secret(self.raw)
         u = pgpy.PGPUID.new(UID_A)
-        self.key.add_uid(u, created=K.dt(self.t), **prefs('P1'))
+        self._lent = []
+        p1 = prefs('P1')
+        self.key.add_uid(u, created=K.dt(self.t), **p1)
+        alias.scribble(p1)
         self.model.uids['A'] = {'certs': [(self.t, 'P1')], 'revoked': False, 'third': [], 'present': True}
         self.sub_raws = {}
 
@@ -142,6 +146,14 @@ class World(object):
                 self._apply(op)
         else:
             self._apply(op)
+        # the caller's own containers (preference lists, flag sets, the image buffer) are re-used by the caller once the call is back (mc/alias.py)
+        for c in self._lent:
+            alias.scribble(c)
+        del self._lent[:]
+
+    def lend(self, c):
+        self._lent.append(c)
+        return c
 
     def _apply(self, op):
         import pgpy
@@ -149,11 +161,11 @@ class World(object):
         key, m = self.key, self.model
         if op == 'add_uid_B':
             t = self.tick()
-            key.add_uid(pgpy.PGPUID.new('Bob B', comment='bee', email='b@example.org'), created=t, **prefs('P2'))
+            key.add_uid(pgpy.PGPUID.new('Bob B', comment='bee', email='b@example.org'), created=t, **self.lend(prefs('P2')))
             m.uids['B'] = {'certs': [(self.t, 'P2')], 'revoked': False, 'third': [], 'present': True}
         elif op == 'add_uid_img':
             t = self.tick()
-            key.add_uid(pgpy.PGPUID.new(bytearray(JPEG)), created=t, **prefs('P3'))
+            key.add_uid(pgpy.PGPUID.new(self.lend(bytearray(JPEG))), created=t, **self.lend(prefs('P3')))
             m.uids['IMG'] = {'certs': [(self.t, 'P3')], 'revoked': False, 'third': [], 'present': True}
         elif op in ('add_sub_sign', 'add_sub_enc'):
             t = self.tick()
@@ -162,7 +174,7 @@ class World(object):
             sk = K.pgpy_secret(sraw)
             # (when the key is protected this runs inside its unlock scope: the new subkey itself is not protected - the key then has components in
             # different protection states, which must survive the end of the scope, export and import like any other key)
-            key.add_subkey(sk, usage={KeyFlags.Sign} if op == 'add_sub_sign' else {KeyFlags.EncryptCommunications, KeyFlags.EncryptStorage}, created=t)
+            key.add_subkey(sk, usage=self.lend({KeyFlags.Sign} if op == 'add_sub_sign' else {KeyFlags.EncryptCommunications, KeyFlags.EncryptStorage}), created=t)
             self.sub_raws[name] = sraw
             m.subs.append({'kind': 'sign' if op == 'add_sub_sign' else 'enc', 'name': name, 'revoked': False})
         elif op in ('recert_A_P2', 'recert_A_P4', 'recert_A_P3_same_second', 'recert_A_P2_generic_same_second', 'recert_B_P3'):
@@ -179,7 +191,7 @@ class World(object):
                 t = self.tick()
                 tt = self.t
             u = self._uid(who)
-            u |= key.certify(u, level, created=t, **prefs(pn))
+            u |= key.certify(u, level, created=t, **self.lend(prefs(pn)))
             m.uids[who]['certs'].append((tt, pn))
         elif op in ('third_party_A', 'third_party_A_local', 'third_party_A_keyid_only'):
             t = self.tick()
@@ -210,7 +222,7 @@ class World(object):
             m.revokers += 1
         elif op == 'direct_sig':
             t = self.tick()
-            key |= key.certify(key, created=t, usage={KeyFlags.Certify, KeyFlags.Sign})
+            key |= key.certify(key, created=t, usage=self.lend({KeyFlags.Certify, KeyFlags.Sign}))
             m.direct += 1
         elif op == 'direct_third_local':
             t = self.tick()
@@ -305,7 +317,11 @@ def bfs(root, depth, check_state, first_ops=None, res=None, menu=OPS):
     frontier = collections.deque()
     w0 = replay(root, [])
     check_state(w0, [])
-    v0 = key_view(bytes(w0.key))
+    try:
+        v0 = key_view(bytes(w0.key))
+    except wire.WireError:
+        # the export of the initial state is not well-formed OpenPGP: check_state has reported it, there is nothing to search from
+        return seen, 0, 0
     seen.add(canon(v0, w0.model, 0))
     transitions = traces = 0
     deepest = []
